@@ -434,11 +434,14 @@ fn decoder_twin(rng: &mut Rng, out: &mut CaseOut) {
             1 => (DecOp::AddR(rng.below(r), rng.bytes(size.saturating_sub(2))), "add-rec-wrong-size".into()),
             2 if !round.got_o.is_empty() => {
                 let i = *rng.pick(&round.got_o);
-                (DecOp::AddO(i, round.originals[i].clone()), format!("add-orig-duplicate({i})"))
+                // the same shard again, or (half) other bytes of the right length
+                let bytes = if rng.chance(1, 2) { round.originals[i].clone() } else { rng.bytes(size) };
+                (DecOp::AddO(i, bytes), format!("add-orig-duplicate({i})"))
             }
             3 if !round.got_r.is_empty() => {
                 let i = *rng.pick(&round.got_r);
-                (DecOp::AddR(i, round.recovery[i].clone()), format!("add-rec-duplicate({i})"))
+                let bytes = if rng.chance(1, 2) { round.recovery[i].clone() } else { rng.bytes(size) };
+                (DecOp::AddR(i, bytes), format!("add-rec-duplicate({i})"))
             }
             4 => {
                 let i = k + rng.below(3);
